@@ -102,10 +102,10 @@ def items(tier, seed):
         sp_units = sorted({(qt, u) for qt, u, v, units in special} | {(qt, v) for qt, u, v, units in special})
         for j, (qt, u) in enumerate(sp_units + seeded_sample([(qt, u) for qt, u, v, units in rest], 60 if tier == "quick" else 1500, seed + 7)):
             if dbn != "posc_nocat":
-                out.append({"k": "same_fp", "db": dbn, "qt": qt, "u": u, "cont": ("float", "list", "tuple", "numpy")[j % 4]})
+                out.append({"k": "same_fp", "db": dbn, "qt": qt, "u": u, "cont": ("float", "list", "tuple", "numpy", "quantity")[j % 5]})
         for j, (qt, u, v, units) in enumerate(chosen):
             w = units[(units.index(v) + 1 + j) % len(units)]
-            out.append({"k": "containers", "db": dbn, "qt": qt, "u": u, "v": v, "w": w, "cont": ("list", "tuple", "numpy")[j % 3]})
+            out.append({"k": "containers", "db": dbn, "qt": qt, "u": u, "v": v, "w": w, "cont": ("list", "tuple", "numpy", "tuples")[j % 4]})
     # seeded extras
     db = get_db("default")
     allp, allt = [], []
@@ -147,6 +147,19 @@ def run(cfg, V):
     if cfg["k"] == "same_fp":
         from .c10 import _container
 
+        if cfg["cont"] == "quantity":
+            # the Quantity / Scalar route, with the unit given as an equal but NOT identical string (as read from a file)
+            from barril.units import Scalar
+            from barril.units._quantity import Quantity
+            from .common import pushed
+
+            u2 = (cfg["u"] + "_")[:-1]
+            with pushed(db):
+                q = Quantity(cfg["qt"], cfg["u"]) if cfg["qt"] in db.categories_to_quantity_types else None
+                if q is None:
+                    return {"same": x, "n": 1}
+                a, b = q.ConvertScalarValue(x, u2), Scalar(q, x).GetValue(u2)
+            return {"same": a, "same2": b, "n": 1}
         c = x if cfg["cont"] == "float" else _container(cfg["cont"], [x])
         same = db.Convert(cfg["qt"], cfg["u"], cfg["u"], c)
         return {"same": same if cfg["cont"] == "float" else list(same)[0], "n": 1 if cfg["cont"] == "float" else len(same)}
@@ -162,6 +175,27 @@ def run(cfg, V):
 
         w = cfg["w"]
         xs = [x, V["y"]]
+        if cfg["cont"] == "tuples":
+            # a list of tuples of DIFFERENT lengths (2-D points mixed with 1-D ones) through Array.GetValues
+            from barril.units import Array
+            from .common import pushed
+
+            flat = lambda r: [e for t in r for e in t]  # noqa: E731
+            with pushed(db):
+                cat = qt if qt in db.categories_to_quantity_types else None
+                if cat is None:
+                    return {"skip": True}
+                c = [(x, V["y"]), (V["y"],), (x, x, V["y"])]
+                A = Array(c, u, cat)
+                r1 = A.GetValues(v)
+                r2 = A.GetValues(v)
+                back = Array(r1, v, cat).GetValues(u)
+                uw = A.GetValues(w)
+                uvw = Array(r1, v, cat).GetValues(w)
+                same = A.GetValues(u)
+            xs6 = flat(c)
+            return {"same": flat(same), "r1": flat(r1), "r2": flat(r2), "uw": flat(uw), "uvw": flat(uvw), "back": flat(back), "after": flat(A.GetValues()), "xs": xs6,
+                    "float": [db.Convert(qt, u, v, t) for t in xs6], "same_type": "rows" + str([len(t) for t in same]), "r_type": "rows" + str([len(t) for t in r1]), "c_type": "rows[2, 1, 3]"}
         c = _container(cfg["cont"], xs)
         same = db.Convert(qt, u, u, c)
         r1 = db.Convert(qt, u, v, c)
@@ -203,7 +237,8 @@ def props(cfg, T, obs):
     if cfg["k"] == "same_fp":
         from symx.core import lift_fp
 
-        return [("u->u gives back the bit-identical double (IEEE-754 semantics), whatever the value kind", z3.And(z3.BoolVal(obs["n"] == 1), lift_fp(obs["same"]) == x))]
+        return [("u->u gives back the bit-identical double (IEEE-754 semantics), whatever the value kind", z3.And(z3.BoolVal(obs["n"] == 1), lift_fp(obs["same"]) == x,
+                                                                                                                  lift_fp(obs.get("same2", obs["same"])) == x))]
     if cfg["k"] == "unit":
         y = T["y"]
         P = [
@@ -227,6 +262,8 @@ def props(cfg, T, obs):
             P.append(("odd exponents keep the order of two amounts", z3.Implies(z3.And(x < y, x != 0, y != 0) if e < 0 else x < y,
                                                                               (term(obs["r"]) < term(obs["ry"])) if e > 0 else z3.BoolVal(True))))
         return P
+    if cfg["k"] == "containers" and obs.get("skip"):
+        return []
     if cfg["k"] == "containers":
         n = len(obs["xs"])
         ident = lambda A, B: len(A) == len(B) and all(z3.is_true(z3.simplify(term(a) == term(b))) for a, b in zip(A, B))  # noqa: E731
